@@ -22,6 +22,8 @@ TAG_KEY = {
     'a2ml-text': 'a2ml-include-kept-in-a2ml-text',
     'died': 'self-include-unbounded-recursion',
     'no-error': 'a2ml-missing-include-is-a-warning',
+    'a2ml-unparsed': 'a2ml-include-unmerged-when-a2ml-unparseable',
+    'a2ml-trailing-blank': 'a2ml-include-at-block-end-trailing-whitespace',
 }
 IGNORED_TAGS = {'reload-text'}      # equal model, different text (comments of an include file): outside the statement
 
@@ -203,6 +205,7 @@ def check(tier, seed):
         c = cases[i]
         v.violation('input', {'kind': 'INCL', 'files': {p: (t if isinstance(t, str) else (t or b'').decode('utf-8', 'replace')) for p, t in c['files'].items()},
                               'main': c['main'], 'strict': c['strict'], 'flat': c.get('flat'), 'label': c.get('label'), 'case_kind': c['kind'],
+                              'a2ml': bool(c.get('a2ml')), 'expect': c.get('expect', 'equal'), 'names': list(c.get('names', ())),
                               'why': why, 'class': key, 'stage': 'W (oracle on the implementation)'})
         reported += 1
     if reported == 0:
@@ -227,7 +230,7 @@ def replay(r):
         print('replay: no concrete input recorded; broken:', r.get('broken_obligation') or r.get('broken'))
         return 1
     case = dict(files=r['files'], main=r['main'], strict=r['strict'], flat=r.get('flat'), kind=r.get('case_kind', 'split'),
-                expect='equal', label=r.get('label'), a2ml=False)
+                expect=r.get('expect', 'equal'), label=r.get('label'), a2ml=bool(r.get('a2ml')), names=r.get('names', []))
     for p, t in sorted(r['files'].items()):
         print('--- %s\n%s' % (p, (t or '')[:1500]))
     a = inclib.run_incl([case], binary=impl)[0]
